@@ -69,10 +69,14 @@ Definition new_bytes_reader (data : bytes) (bcap : N) : rstate :=
        stats := repeat 0 (N.to_nat nbuckets); sidx := 0 |}
   else new_reader fake_source.
 
-(* smallest power of two >= n (mcache.Malloc capacity); fuel 64 doublings *)
+(* The three doubling loops.  Sizes are mathematical integers here (DESIGN 4: 64-bit int, allocation
+   never fails), so each loop gets the number of doublings it can need for its argument:
+   starting from x >= 1, x * 2^(bits of n) > n.  Proofs/BufReaderP.v shows the results are >= n. *)
+Definition dbl_fuel (n : N) : nat := S (N.size_nat n).
+(* smallest power of two >= n (mcache.Malloc capacity) *)
 Fixpoint pow2ceil_from (f : nat) (p n : N) : N :=
   match f with O => p | S f' => if n <=? p then p else pow2ceil_from f' (2 * p) n end.
-Definition pow2ceil (n : N) : N := pow2ceil_from 64 1 n.
+Definition pow2ceil (n : N) : N := pow2ceil_from (dbl_fuel n) 1 n.
 (* for x ; x < n ; x *= 2 *)
 Fixpoint double_until (f : nat) (x n : N) : N :=
   match f with O => x | S f' => if x <? n then double_until f' (2 * x) n else x end.
@@ -85,6 +89,30 @@ Definition stats_update (st : rstate) (size : N) : list N * N :=
   (firstn (N.to_nat (sidx st)) (stats st) ++ size :: skipn (S (N.to_nat (sidx st))) (stats st),
    (sidx st + 1) mod nbuckets).
 
+(* ---- the source as the read loop sees it --------------------------------------------------
+   [src_read] above is the reference semantics of one Read.  The loop of acquireSlow performs
+   many Reads in a row; recomputing [drop (spos s) (sdata s)] and [len (sdata s)] for each of
+   them would make a 1-byte script quadratic in the stream length, so the loop runs on a
+   cursor that carries the undelivered rest of the data and its length.  [cur_read] is
+   [src_read] on that representation (Proofs/BufReaderP.v: cur_read_src_read). *)
+Record scur := { c_rest : bytes; c_rem : N; c_chunks : list N; c_pos : N }.
+
+Definition cur_of (s : source) : scur :=
+  {| c_rest := drop (spos s) (sdata s); c_rem := len (sdata s) - spos s;
+     c_chunks := schunks s; c_pos := spos s |}.
+Definition src_at (s : source) (c : scur) : source :=
+  {| sdata := sdata s; sfinal := sfinal s; swith := swith s; schunks := c_chunks c; spos := c_pos c |}.
+
+(* One Read(p) with len(p) = room: (bytes, count, error option, cursor'). *)
+Definition cur_read (fin : Z) (wd : bool) (c : scur) (room : N) : bytes * N * option Z * scur :=
+  let '(ch, rest) := match c_chunks c with [] => (room, []) | x :: r => (x, r) end in
+  if c_rem c =? 0 then
+    ([], 0, Some fin, {| c_rest := c_rest c; c_rem := c_rem c; c_chunks := rest; c_pos := c_pos c |})
+  else
+    let m := N.min ch (N.min room (c_rem c)) in
+    let c' := {| c_rest := drop m (c_rest c); c_rem := c_rem c - m; c_chunks := rest; c_pos := c_pos c + m |} in
+    (take m (c_rest c), m, (if wd && (m =? c_rem c) && negb (m =? 0) then Some fin else None), c').
+
 (* the read loop of acquireSlow (after the D4/D5 repairs):
      for empty := 0; empty < maxConsecutiveEmptyReads; {
         m, err := rd.Read(buf[len:cap]); buf = buf[:len+m]
@@ -93,52 +121,68 @@ Definition stats_update (st : rstate) (size : N) : list N * N :=
         if m > 0 { empty = 0 } else { empty++ }
      }
      r.err = io.ErrNoProgress; return len-ri
-   [fo] bounds the number of non-empty reads (each consumes >= 1 byte of the source),
-   [left] counts the empty reads still allowed. *)
-Fixpoint read_loop (fo : nat) : nat -> rstate -> N -> rstate * N :=
-  fix inner (left : nat) (st : rstate) (n : N) : rstate * N :=
-    match left with
-    | O => (set_st st (win st) (ri st) (cap st) (ro st) (npend st) (Some e_noprogress) (src st), len (win st))
-    | S left' =>
-      let room := cap st - (ri st + len (win st)) in
-      let '(bs, e, s') := src_read (src st) room in
-      let w := win st ++ bs in
+   cp = cap(buf), i = ri (both constant in the loop), wl = len(buf)-ri, acc = the chunks read
+   so far, newest first (appended to the window once, after the loop).
+   Result: (cursor', acc', wl', error to store in r.err (None: leave it), value returned).
+   [fuel] bounds the number of Reads: each Read uses up a script entry or, once the script is
+   exhausted, at least one byte of the source (theorem read_loop_fuel_ok: never exhausted). *)
+Fixpoint read_loop (fin : Z) (wd : bool) (cp i n : N) (fuel : nat) (empty : nat)
+         (c : scur) (acc : list bytes) (wl : N) : scur * list bytes * N * option Z * N :=
+  match fuel with
+  | O => (c, acc, wl, None, wl)      (* out of fuel: excluded by the theorems *)
+  | S fuel' =>
+    if Nat.leb max_empty empty then (c, acc, wl, Some e_noprogress, wl)
+    else
+      let room := cp - (i + wl) in
+      let '(bs, m, e, c') := cur_read fin wd c room in
+      let acc' := bs :: acc in
+      let wl' := wl + m in
       match e with
-      | Some ev =>
-        (set_st st w (ri st) (cap st) (ro st) (npend st) (Some ev) s', if n <=? len w then n else len w)
+      | Some ev => (c', acc', wl', Some ev, if n <=? wl' then n else wl')
       | None =>
-        let st' := set_st st w (ri st) (cap st) (ro st) (npend st) (rerr st) s' in
-        if n <=? len w then (st', n)
-        else if 0 <? len bs then
-          match fo with
-          | O => (st', len w)      (* out of fuel: excluded by the theorems *)
-          | S fo' => read_loop fo' max_empty st' n
-          end
-        else inner left' st' n
+        if n <=? wl' then (c', acc', wl', None, n)
+        else if 0 <? m then read_loop fin wd cp i n fuel' O c' acc' wl'
+        else read_loop fin wd cp i n fuel' (S empty) c' acc' wl'
       end
-    end.
+  end.
 
-Definition loop_fuel (st : rstate) : nat := S (length (sdata (src st))).
+(* the chunks read by the loop, oldest first, as one byte string: [concat (rev acc)] computed
+   in linear time (stdlib [rev] is quadratic) *)
+Definition flat_rev (acc : list bytes) : bytes := fold_left (fun w b => b ++ w) acc [].
+
+Definition loop_fuel (c : scur) : nat := S (length (c_chunks c) + length (c_rest c)).
+
+(* if cap(r.buf) == 0 { maxSize := max(stats.maxSize(), defaultBufSize); for ; maxSize < n; maxSize *= 2 {};
+                        r.buf = mcache.Malloc(0, maxSize); r.bufReadOnly = false } *)
+Definition alloc_phase (st : rstate) (n : N) : rstate :=
+  if cap st =? 0 then
+    let m0 := N.max (stats_max (stats st)) bufsz in
+    let m := double_until (dbl_fuel n) m0 n in
+    set_st st (win st) (ri st) (pow2ceil m) false (npend st) (rerr st) (src st)
+  else st.
+
+(* if n > cap(r.buf)-r.ri { for ncap = cap*2; ncap-ri < n; ncap *= 2 {}; nbuf := mcache.Malloc(ncap);
+                            if !r.bufReadOnly { pendingBuf = append(pendingBuf, r.buf) };
+                            copy(nbuf[ri:], buf[ri:]); r.buf = nbuf[:ri+cn]; r.bufReadOnly = false } *)
+Definition grow_phase (st : rstate) (n : N) : rstate :=
+  if cap st - ri st <? n then
+    let ncap := double_until_room (dbl_fuel (ri st + n)) (2 * cap st) (ri st) n in
+    set_st st (win st) (ri st) (pow2ceil ncap) false
+           (if ro st then npend st else npend st + 1) (rerr st) (src st)
+  else st.
 
 Definition acquire_slow (st : rstate) (n : N) : rstate * N :=
   match rerr st with
   | Some _ => (st, len (win st))
   | None =>
-    (* allocate *)
-    let st1 :=
-      if cap st =? 0 then
-        let m0 := N.max (stats_max (stats st)) bufsz in
-        let m := double_until 64 m0 n in
-        set_st st (win st) (ri st) (pow2ceil m) false (npend st) (rerr st) (src st)
-      else st in
-    (* grow *)
-    let st2 :=
-      if cap st1 - ri st1 <? n then
-        let ncap := double_until_room 64 (2 * cap st1) (ri st1) n in
-        set_st st1 (win st1) (ri st1) (pow2ceil ncap) false
-               (if ro st1 then npend st1 else npend st1 + 1) (rerr st1) (src st1)
-      else st1 in
-    read_loop (loop_fuel st2) max_empty st2 n
+    let st2 := grow_phase (alloc_phase st n) n in
+    (* the read loop *)
+    let s := src st2 in
+    let c0 := cur_of s in
+    let '(c', acc, _, e, m) :=
+      read_loop (sfinal s) (swith s) (cap st2) (ri st2) n (loop_fuel c0) O c0 [] (len (win st2)) in
+    (set_st st2 (win st2 ++ flat_rev acc) (ri st2) (cap st2) (ro st2) (npend st2)
+            (match e with Some ev => Some ev | None => rerr st2 end) (src_at s c'), m)
   end.
 
 Definition acquire (st : rstate) (n : N) : rstate * N :=
